@@ -58,36 +58,38 @@ func (dc *agentConnection) receive(data []byte) {
 }
 
 func (dc *agentConnection) Read(b []byte) (int, error) {
-	dc.m.Lock()
-	if len(dc.buff) != 0 {
-		n := copy(b[:], dc.buff[0:])
-		dc.buff = dc.buff[n:]
+	var after <-chan time.Time
+
+	for {
+		dc.m.Lock()
+		if len(dc.buff) != 0 {
+			n := copy(b[:], dc.buff[0:])
+			dc.buff = dc.buff[n:]
+			dc.m.Unlock()
+			return n, nil
+		}
+		closed := dc.closed
 		dc.m.Unlock()
-		return n, nil
-	}
-	dc.m.Unlock()
 
-	after := noDeadline
-
-	if !dc.readTimeout.IsZero() {
-		after = time.After(time.Until(dc.readTimeout))
-	}
-
-	select {
-	case <-after:
-		return 0, ErrTimeout
-	case _, ok := <-dc.in:
-		if !ok {
-			log.Errorf("Error reading from channel, return EOF")
+		if closed {
+			// everything received before the end of the stream has been read
 			return 0, io.EOF
 		}
 
-		dc.m.Lock()
-		n := copy(b[:], dc.buff[0:])
-		dc.buff = dc.buff[n:]
-		dc.m.Unlock()
+		if after == nil {
+			after = noDeadline
 
-		return n, nil
+			if !dc.readTimeout.IsZero() {
+				after = time.After(time.Until(dc.readTimeout))
+			}
+		}
+
+		select {
+		case <-after:
+			return 0, ErrTimeout
+		case <-dc.in:
+			// woken by receive() or Close(): look at the buffer again
+		}
 	}
 }
 
